@@ -116,6 +116,7 @@ RunCommand(st) ==
 (* the dispatcher, in the order of ui.Update; keys are ignored while loading, which a settled UI never is *)
 KeyNext(st, k) ==
     IF k = "esc" THEN {Out(Normal(st))}
+    ELSE IF k = "bs" /\ st.mode = "opening" THEN {Out(st)}   \* the footer holds the (long) address being opened: one character less of it
     ELSE IF k = "bs" THEN
         {Out(IF st.buf = <<>> THEN Normal(st)
              ELSE LET b == SubSeq(st.buf, 1, Len(st.buf) - 1) IN
@@ -136,7 +137,10 @@ KeyNext(st, k) ==
     ELSE IF k \in CmdToks THEN {Out(st)}                \* (macro tokens only make sense after ':')
     ELSE {Nav(st, k)}                                   \* normal and opening: keys act as in normal mode
 
-(* the hook process ending while still "opening" returns to normal *)
+(* the hook process ending while still "opening" returns to normal.  A key that starts a hook leaves the
+   mode "opening" until then; further keys may arrive meanwhile (they act as in normal mode), and when
+   the hook ends after the user has moved on (Esc, a command, a selection) nothing changes.  T_UI and
+   MC_UI take the exit as a step of its own in sessions whose hooks are held back ("hookexit"). *)
 HookExit(st) == IF st.mode = "opening" THEN Normal(st) ELSE st
 
 Init0(o) == [mode |-> "normal", buf |-> <<>>, pages |-> <<ItemPage(IF o = "a" THEN OpenActor ELSE OpenPost)>>, at |-> 1]
